@@ -313,15 +313,21 @@ Definition metric_name_mode (names : list key) (ms : modes) (metric : metric_ref
 (* ---- the summary at the end of Tuner.run() ---------------------------------
    print_best_metric_found(tuning_status, metric_names=scheduler.metric_names(),
                            mode=scheduler.metric_mode())
-   The mode is passed as the scheduler returns it: a list for several metrics.
-   Inside, `if mode == "min"` is false for every list, so a list is read as "max". *)
-Definition summary_mode (ms : modes) : mode :=
-  match ms with OneMode m => m | ModeList _ => Max end.
+   The mode is passed as the scheduler returns it: a list for several metrics; the
+   function then takes mode[0] (the summary is about metric_names[0]).
+   (Before /repo commit 4548aec a list was read as "max" because `mode == "min"` is
+   false for every list: finding replayed by findings/C17-final-summary-mode-list.json.) *)
+Definition summary_mode (ms : modes) : option mode :=
+  match ms with
+  | OneMode m => Some m
+  | ModeList (m :: _) => Some m
+  | ModeList [] => None                          (* IndexError *)
+  end.
 
 Definition tuner_final_summary (names : list key) (ms : modes) (ts : tstatus) : option (Z * num) :=
-  match names with
-  | [] => None                                   (* IndexError *)
-  | name :: _ => print_best ts name (summary_mode ms)
+  match names, summary_mode ms with
+  | name :: _, Some m => print_best ts name m
+  | _, _ => None                                 (* IndexError *)
   end.
 
 (* ---- Tuner.best_config --------------------------------------------------- *)
@@ -368,23 +374,33 @@ Definition cell_num (c : cell) : option num :=
   | _ => None
   end.
 
-(* Series.argmin()/argmax() with skipna: position of the first occurrence of the
-   extreme non-NaN value; [better x y] = x strictly better than y *)
+(* Series.argmin()/argmax() with skipna=True (pandas nanops.nanargmin/nanargmax):
+   ValueError when every cell is NA; otherwise NA cells are FILLED with +inf (argmin)
+   or -inf (argmax) and the position of the first extreme of the filled column is
+   returned.  [better x y] = x strictly better than y. *)
 Definition better (m : mode) (x y : num) : bool :=
   match m with Min => num_lt x y | Max => num_lt y x end.
+
+Definition cell_fill (m : mode) (c : cell) : num :=
+  match cell_num c with
+  | Some x => x
+  | None => match m with Min => PInf | Max => NInf end
+  end.
 
 Fixpoint arg_best (m : mode) (col : list cell) (i : nat) (best : option (nat * num)) : option (nat * num) :=
   match col with
   | [] => best
   | c :: r =>
+      let x := cell_fill m c in
       let best' :=
-        match cell_num c, best with
-        | Some x, None => Some (i, x)
-        | Some x, Some (j, y) => if better m x y then Some (i, x) else best
-        | None, _ => best
+        match best with
+        | None => Some (i, x)
+        | Some (j, y) => if better m x y then Some (i, x) else best
         end in
       arg_best m r (S i) best'
   end.
+
+Definition is_na (c : cell) : bool := match cell_num c with None => true | Some _ => false end.
 
 Inductive exp_outcome :=
 | EBest (i : nat) (cfg : dict)
@@ -400,6 +416,7 @@ Definition exp_best_config (names : list key) (ms : modes) (metric : metric_ref)
   | Some (name, m) =>
       let col := map (cell_of name) table in
       if existsb (fun c => match c with CObj => true | _ => false end) col then EUnmodelled
+      else if forallb is_na col then EError
       else match arg_best m col 0 None with
            | None => EError
            | Some (i, _) => EBest i (strip_st (nth i table []))
